@@ -1107,24 +1107,58 @@ func (h *H) httpValue(r ValRef, f fm, t *tally) {
 }
 
 // response runs DumpToHTTPResponse for req and loads the recorded response.
+// responsePresets: what the ResponseWriter's header already holds when
+// DumpToHTTPResponse is called: nothing, or a Content-Type left there by the
+// handler / a middleware / an earlier dump into the same header map. The
+// statement does not depend on it: the content type of the response must name
+// the encoding of the body that was written.
+var responsePresets = []string{"", "application/json", "application/cbor", "text/plain; charset=utf-8"}
+
 func (h *H) response(w Witness, req *http.Request, must bool, r ValRef, pv any, sc *schema, t *tally) string {
+	result := ""
+	base := w.Path
+	for _, preset := range responsePresets {
+		w.Path = base
+		if preset != "" {
+			w.Path = fmt.Sprintf("%s [response header already holds Content-Type %q]", base, preset)
+			t.evals++
+		}
+		res := h.responseOnce(w, req, must, preset, r, pv, sc, t)
+		if preset == "" {
+			result = res
+		} else if res != result && strings.HasPrefix(result, "ok") {
+			result = res
+		}
+	}
+	return result
+}
+
+// responseOnce runs DumpToHTTPResponse for req and loads the recorded response.
+func (h *H) responseOnce(w Witness, req *http.Request, must bool, preset string, r ValRef, pv any, sc *schema, t *tally) string {
+	site := "DumpToHTTPResponse"
+	if preset != "" {
+		site = "DumpToHTTPResponse[header already holds a Content-Type]"
+	}
 	v, _, _, guards, err := buildG(r) // a fresh value in the requested capacity shape
 	if err != nil {
 		h.c.EngineError("build %v: %v", r, err)
 		return "engine-error"
 	}
 	rec := httptest.NewRecorder()
+	if preset != "" {
+		rec.Header().Set("Content-Type", preset)
+	}
 	var derr error
 	t.trans++
 	p, stack := vlib.Catch(func() { derr = dsd.DumpToHTTPResponse(rec, req, v) })
 	if p != nil {
-		h.c.Violate("never-panics", "DumpToHTTPResponse", vlib.PanicSite(stack), fmt.Sprintf("%s panicked: %v", w.Path, p), w)
+		h.c.Violate("never-panics", site, vlib.PanicSite(stack), fmt.Sprintf("%s panicked: %v", w.Path, p), w)
 		return "panic"
 	}
-	h.checkArg("DumpToHTTPResponse", "DumpToHTTPResponse(w,r,v)", w, v, pv, sc, guards)
+	h.checkArg(site, "DumpToHTTPResponse(w,r,v)", w, v, pv, sc, guards)
 	if derr != nil {
 		if must {
-			h.c.Violate("accept-served", "DumpToHTTPResponse", "error-instead-of-ok", fmt.Sprintf("%s: Accept %q names a supported type or a wildcard but the dump failed: %v", w.Path, req.Header.Get("Accept"), derr), w)
+			h.c.Violate("accept-served", site, "error-instead-of-ok", fmt.Sprintf("%s: Accept %q names a supported type or a wildcard but the dump failed: %v", w.Path, req.Header.Get("Accept"), derr), w)
 			return "error"
 		}
 		return "refused"
@@ -1133,15 +1167,21 @@ func (h *H) response(w Witness, req *http.Request, must bool, r ValRef, pv any, 
 	body, _ := io.ReadAll(resp.Body)
 	resp.Body = io.NopCloser(bytes.NewReader(body))
 	ct := resp.Header.Get("Content-Type")
-	cf, st := h.checkContentType("DumpToHTTPResponse", w, ct, body, pv, sc)
+	cf, st := h.checkContentType(site, w, ct, body, pv, sc)
 	if st == "bad" {
 		return "bad-content-type"
 	}
-	res := h.loadDeliveries("DumpToHTTPResponse→LoadFromHTTPResponse", w, pv, sc, cf, body,
-		func(rc io.ReadCloser, n int64) { resp.Body, resp.ContentLength = rc, n },
-		func(tg any) (uint8, error) { return dsd.LoadFromHTTPResponse(resp, tg) }, t)
+	var res string
+	if preset == "" {
+		res = h.loadDeliveries(site+"→LoadFromHTTPResponse", w, pv, sc, cf, body,
+			func(rc io.ReadCloser, n int64) { resp.Body, resp.ContentLength = rc, n },
+			func(tg any) (uint8, error) { return dsd.LoadFromHTTPResponse(resp, tg) }, t)
+	} else {
+		// the delivery dimension is covered without a preset; here one plain load
+		res = h.checkHTTPLoaded(site+"→LoadFromHTTPResponse", w, pv, sc, cf, func(tg any) (uint8, error) { return dsd.LoadFromHTTPResponse(resp, tg) }, t)
+	}
 	if res == "ok" && st == "differs" {
-		h.ctDiffers("DumpToHTTPResponse", w, ct, body)
+		h.ctDiffers(site, w, ct, body)
 		return "bad-content-type"
 	}
 	if res == "ok" {
@@ -1277,6 +1317,25 @@ func buildHeaders(n int) []string {
 				for _, ws := range outerWS {
 					add(ws[0] + cv + p + ws[1])
 				}
+			}
+		}
+	}
+	// long lists: 0..10 unsupported entries in front of every registered type / wildcard
+	// (a header may list any number of media ranges; the supported one may come last)
+	fillers := []string{"image/webp", "text/html;q=0.9", "application/xml", "x", "image/png; q=0.8", "text/css"}
+	var targets []string
+	targets = append(targets, rangesExact...)
+	targets = append(targets, "*/*", "application/*", "text/*", "*/*;q=0.1")
+	for _, tg := range targets {
+		for k := 0; k <= 10; k++ {
+			for _, sep := range []string{",", ", "} {
+				var els []string
+				for i := 0; i < k; i++ {
+					els = append(els, fillers[i%len(fillers)])
+				}
+				add(strings.Join(append(els, tg), sep))
+				// and the supported entry followed by unsupported ones
+				add(strings.Join(append([]string{tg}, els...), sep))
 			}
 		}
 	}
@@ -1662,6 +1721,7 @@ func main() {
 			"(3) totality: every byte string of length <=3 (thorough: also every 4-byte string starting with a known id), every truncation and single-byte substitution of valid dumps, every gzip-wrapped inner string of length <=2, x load targets {struct, gencode struct, interface}. " +
 			"Byte slices (top-level RAW values and []byte fields) are additionally enumerated in the capacity shapes {cap==len, built by append with spare capacity, window into a larger buffer with live bytes around it}; every dump gets a fresh copy, the loaded value is compared with a pristine copy taken before the dump, the argument and its whole backing array must be unchanged after every dump, and every dump is done twice (equal blobs, earlier blob unchanged). " +
 			"Also: strings with two and three U+0085 (adjacent and apart) and U+0085 in *string, []string, map key+value and nested-struct fields (so that pairs put it into two fields); large repetitive values (4 KiB, 64 KiB; thorough 1 MiB of one byte, a long string of one repeated pair, a long list of equal strings) at top level and in one struct field, through every format and every dump path incl. GZIP/AUTO compression; header parameters with token values, quoted-strings containing '/', ',', ';' and quoted-pairs, and accept-ext behind q. " +
+			"Accept lists with 0..10 unsupported media ranges in front of (and behind) each registered type and wildcard. DumpToHTTPResponse also with a ResponseWriter whose header already holds a Content-Type (application/json, application/cbor, text/plain) before the dump. " +
 			"Every HTTP load (request, response, Content-Type family) is repeated for 4 body deliveries {one piece, one byte per Read, half per Read, last data together with io.EOF} x {ContentLength = true length, -1}. " +
 			"non-trivial = cases with a non-zero value whose dump was produced and loaded back, header strings with more than a bare lower-case type, byte strings whose first byte is a known format/compression id")
 		c.Assume("equality of dumped and loaded value is semantic: nil and empty slices/maps are one value (GenCode, MsgPack and JSON-null have a single representation); pointer nil-ness, lengths and all contents must match")
